@@ -9,7 +9,7 @@ use p3_batch_stark::{BatchProof, CommonData, ProverData, StarkInstance, prove_ba
 use p3_circuit::CircuitBuilder;
 use p3_circuit::ops::{generate_poseidon2_trace, generate_recompose_trace};
 use p3_field::{Field, PrimeCharacteristicRing, PrimeField64};
-use p3_lookup::InteractionBuilder;
+use p3_lookup::{Count, InteractionBuilder};
 use p3_lookup::logup::LogUpGadget;
 use p3_matrix::dense::RowMajorMatrix;
 use p3_poseidon2_circuit_air::KoalaBearD4Width16;
@@ -35,11 +35,29 @@ pub enum CAir {
     Send,
     Recv,
     Step,
+    /// width 6: the triple (q0,q1,q2) is looked up in the table (t0,t1,t2) of the same AIR (local
+    /// lookup, tuple wider than every global payload of the batch)
+    Local3,
+    /// b = a * p with p a periodic column of period 4
+    Periodic,
+    /// `Step` whose first a and last b are public values
+    Pub,
 }
+
+const PERIODIC: [u64; 4] = [2, 3, 5, 7];
 
 impl<Val: Field> BaseAir<Val> for CAir {
     fn width(&self) -> usize {
-        2
+        if matches!(self, Self::Local3) { 6 } else { 2 }
+    }
+    fn num_public_values(&self) -> usize {
+        if matches!(self, Self::Pub) { 2 } else { 0 }
+    }
+    fn num_periodic_columns(&self) -> usize {
+        usize::from(matches!(self, Self::Periodic))
+    }
+    fn periodic_columns(&self) -> Vec<Vec<Val>> {
+        if matches!(self, Self::Periodic) { vec![PERIODIC.iter().map(|&x| Val::from_u64(x)).collect()] } else { vec![] }
     }
 }
 
@@ -65,22 +83,55 @@ where
                 let next = main.next_slice();
                 builder.when_transition().assert_zero(next[0] - a - b);
             }
+            Self::Pub => {
+                let (pv0, pv1): (AB::Expr, AB::Expr) = (builder.public_values()[0].into(), builder.public_values()[1].into());
+                let next = main.next_slice();
+                builder.when_transition().assert_zero(next[0] - a - b);
+                builder.when_first_row().assert_zero(pv0 - a);
+                builder.when_last_row().assert_zero(pv1 - b);
+            }
+            Self::Local3 => {
+                let q: Vec<AB::Expr> = row[..3].iter().map(|&v| v.into()).collect();
+                let t: Vec<AB::Expr> = row[3..6].iter().map(|&v| v.into()).collect();
+                builder.push_local_interaction(vec![(q, Count::bounded(AB::Expr::ONE, 1)), (t, Count::provided(-AB::Expr::ONE))]);
+            }
+            Self::Periodic => {
+                let p: AB::Expr = builder.periodic_values()[0].into();
+                builder.assert_zero(p * a - b);
+            }
         }
     }
 }
 
+fn pvs_for(air: CAir, rows: usize) -> Vec<F> {
+    if air == CAir::Pub { vec![F::from_u64(5), F::from_usize(2 * (rows - 1) + 1)] } else { vec![] }
+}
+
 fn trace_for(air: CAir, rows: usize) -> RowMajorMatrix<F> {
+    if air == CAir::Local3 {
+        let tuple = |i: usize, k: usize| F::from_usize((k + 1) * i + 1 + k * (k + 3));
+        let mut values = F::zero_vec(rows * 6);
+        for r in 0..rows {
+            for k in 0..3 {
+                values[r * 6 + k] = tuple(r, k);
+                values[r * 6 + 3 + k] = tuple(rows - 1 - r, k);
+            }
+        }
+        return RowMajorMatrix::new(values, 6);
+    }
     let mut values = F::zero_vec(rows * 2);
     let mut acc = F::from_u64(5);
     for r in 0..rows {
         let a = match air {
-            CAir::Step => acc,
+            CAir::Step | CAir::Pub => acc,
             _ => F::from_usize(r + 3),
         };
         let b = match air {
             CAir::Plain => a + a,
             CAir::Send | CAir::Recv => a * a,
-            CAir::Step => F::from_usize(2 * r + 1),
+            CAir::Step | CAir::Pub => F::from_usize(2 * r + 1),
+            CAir::Periodic => a * F::from_u64(PERIODIC[r % 4]),
+            CAir::Local3 => unreachable!(),
         };
         values[2 * r] = a;
         values[2 * r + 1] = b;
@@ -89,7 +140,15 @@ fn trace_for(air: CAir, rows: usize) -> RowMajorMatrix<F> {
     RowMajorMatrix::new(values, 2)
 }
 
-const ORDERS: [&[CAir]; 8] = [
+const ORDERS: [&[CAir]; 16] = [
+    &[CAir::Pub],
+    &[CAir::Plain, CAir::Pub, CAir::Send, CAir::Recv],
+    &[CAir::Pub, CAir::Periodic, CAir::Pub],
+    &[CAir::Local3],
+    &[CAir::Send, CAir::Local3, CAir::Recv],
+    &[CAir::Plain, CAir::Local3],
+    &[CAir::Periodic],
+    &[CAir::Send, CAir::Periodic, CAir::Recv, CAir::Local3],
     &[CAir::Plain, CAir::Send, CAir::Recv],
     &[CAir::Send, CAir::Plain, CAir::Recv],
     &[CAir::Send, CAir::Recv, CAir::Plain],
@@ -104,6 +163,8 @@ const ORDERS: [&[CAir]; 8] = [
 pub struct Common {
     pub airs: Vec<CAir>,
     pub data: CommonData<MyConfig>,
+    /// the verifier's public values, one list per instance
+    pub pvs: Vec<Vec<F>>,
 }
 
 fn clone_common(c: &CommonData<MyConfig>) -> CommonData<MyConfig> {
@@ -181,27 +242,39 @@ impl RecUni for U {
         let r = observe(|| {
             let config = crate::rec::kb4::config(s);
             let traces: Vec<RowMajorMatrix<F>> = airs.iter().map(|a| trace_for(*a, 1 << if matches!(a, CAir::Send | CAir::Recv) { bus_log } else { other_log })).collect();
-            let instances: Vec<StarkInstance<'_, MyConfig, CAir>> = airs.iter().zip(traces.iter()).map(|(air, trace)| StarkInstance { air, trace, public_values: vec![] }).collect();
+            let pvs: Vec<Vec<F>> = airs.iter().zip(traces.iter()).map(|(a, t)| pvs_for(*a, p3_matrix::Matrix::height(t))).collect();
+            let instances: Vec<StarkInstance<'_, MyConfig, CAir>> = airs.iter().zip(traces.iter()).zip(pvs.iter()).map(|((air, trace), pv)| StarkInstance { air, trace, public_values: pv.clone() }).collect();
             let pd = ProverData::from_instances(&config, &instances);
             let proof = prove_batch(&config, &instances, &pd);
-            (proof, clone_common(&pd.common))
+            (proof, clone_common(&pd.common), pvs)
         });
         match r {
-            Ok((proof, data)) => Ok((proof, Common { airs: airs.clone(), data }, airs.len())),
+            Ok((proof, data, pvs)) => Ok((proof, Common { airs: airs.clone(), data, pvs }, airs.len())),
             Err(p) => Err(format!("panic: {p}")),
         }
     }
 
     fn batch_native(s: &FriShape, proof: &Self::BatchProof, common: &Common) -> Result<(), String> {
-        let pvs: Vec<Vec<F>> = vec![vec![]; common.airs.len()];
-        match observe(|| verify_batch(&crate::rec::kb4::config(s), &common.airs, proof, &pvs, &common.data).map_err(|e| format!("{e:?}"))) {
+        let pvs = &common.pvs;
+        match observe(|| verify_batch(&crate::rec::kb4::config(s), &common.airs, proof, pvs, &common.data).map_err(|e| format!("{e:?}"))) {
             Ok(r) => r,
             Err(p) => Err(format!("panic: {p}")),
         }
     }
 
     fn common_for(_proof: &Self::BatchProof, honest: &Common) -> Common {
-        Common { airs: honest.airs.clone(), data: clone_common(&honest.data) }
+        Common { airs: honest.airs.clone(), data: clone_common(&honest.data), pvs: honest.pvs.clone() }
+    }
+
+    fn batch_pv_len(c: &Common) -> usize {
+        c.pvs.iter().map(Vec::len).sum()
+    }
+
+    fn batch_pv_fault(c: &Common, pos: usize, seed: u64) -> Option<Common> {
+        let mut pvs = c.pvs.clone();
+        let x = pvs.iter_mut().flatten().nth(pos)?;
+        *x += F::from_u64(1 + crate::core::prng::Rng::new(seed, "pv", pos as u64).below(F::ORDER_U64 - 1));
+        Some(Common { airs: c.airs.clone(), data: clone_common(&c.data), pvs })
     }
 
     fn batch_build(s: &FriShape, proof: &Self::BatchProof, common: &Common) -> Result<Built, CircuitVerdict> {
@@ -216,7 +289,7 @@ impl RecUni for U {
             let mut cb = CircuitBuilder::<Challenge>::new();
             cb.enable_poseidon2_perm::<KoalaBearD4Width16, _>(generate_poseidon2_trace::<Challenge, KoalaBearD4Width16>, p3_koala_bear::default_koalabear_poseidon2_16());
             cb.enable_recompose::<F>(generate_recompose_trace::<F, Challenge>);
-            let counts = vec![0usize; common.airs.len()];
+            let counts: Vec<usize> = common.pvs.iter().map(Vec::len).collect();
             let vi = BatchStarkVerifierInputsBuilder::<MyConfig, MerkleCapTargets<F, DIGEST_ELEMS>, InnerFri>::allocate(&mut cb, proof, &common.data, &counts);
             let params = FriVerifierParams::with_mmcs(s.log_blowup, s.log_final_poly_len, s.commit_pow_bits, s.query_pow_bits, P2);
             let ids = verify_batch_circuit::<_, _, _, _, _, _, _, WIDTH, RATE>(&config, &common.airs, &mut cb, &vi.proof_targets, &vi.air_public_targets, &params, &vi.common_data, &LogUpGadget::new(), P2)
@@ -234,8 +307,7 @@ impl RecUni for U {
     fn batch_run_mut(b: &Built, proof: &Self::BatchProof, common: &Common, m: Option<(bool, usize, u64)>) -> (CircuitVerdict, CircuitInfo) {
         let mut info = CircuitInfo { ops: b.circuit.ops.len(), public_len: b.circuit.public_flat_len, private_len: b.circuit.private_flat_len, ..Default::default() };
         let ran = observe(|| {
-            let pvs: Vec<Vec<F>> = vec![vec![]; common.airs.len()];
-            let (mut pubs, mut privs) = b.vi.pack_values(&pvs, proof, &common.data);
+            let (mut pubs, mut privs) = b.vi.pack_values(&common.pvs, proof, &common.data);
             if let Some((is_pub, pos, seed)) = m {
                 if is_pub { corrupt(&mut pubs, pos, seed) } else { corrupt(&mut privs, pos, seed) }
             }
@@ -261,8 +333,7 @@ impl RecUni for U {
 
     fn batch_pack(b: &Built, proof: &Self::BatchProof, common: &Common) -> Result<(Vec<u64>, Vec<u64>), String> {
         observe(|| {
-            let pvs: Vec<Vec<F>> = vec![vec![]; common.airs.len()];
-            let (pubs, privs) = b.vi.pack_values(&pvs, proof, &common.data);
+            let (pubs, privs) = b.vi.pack_values(&common.pvs, proof, &common.data);
             (pubs.iter().flat_map(ext_words).collect(), privs.iter().flat_map(ext_words).collect())
         })
     }
